@@ -736,17 +736,19 @@ func (s *clientSocket) registerAckHandler(f any, timeout time.Duration) (id uint
 		delete(s.acks, id)
 		s.acksMu.Unlock()
 
-		remove := func(slice []sendBufferItem, s int) []sendBufferItem {
-			return append(slice[:s], slice[s+1:]...)
-		}
-
+		// A binary packet occupies several consecutive items of the send buffer.
+		// Build the list of kept items instead of removing while iterating,
+		// which runs out of bounds as soon as two items are removed.
 		s.sendBufferMu.Lock()
-		for i, packet := range s.sendBuffer {
+		kept := make([]sendBufferItem, 0, len(s.sendBuffer))
+		for _, packet := range s.sendBuffer {
 			if packet.ackID != nil && *packet.ackID == id {
 				s.debug.Log("Removing packet with ack ID", id)
-				s.sendBuffer = remove(s.sendBuffer, i)
+				continue
 			}
+			kept = append(kept, packet)
 		}
+		s.sendBuffer = kept
 		s.sendBufferMu.Unlock()
 	})
 	if err != nil {
